@@ -114,7 +114,7 @@ CHECKS = {
             'The value returned when no key survives and data combined with only-defaulted inputs are excluded. ' + TRUST, 'DESIGN.md section 4, C20'),
 }
 
-NOT_READY = set(['C05', 'C10', 'C13', 'C15'])
+NOT_READY = set([])
 
 PENDING_REASON = 'check under construction in this session (claimed in DESIGN.md; will move to checks once its module is committed)'
 
